@@ -64,6 +64,13 @@ def gen_case(rng, cid, mode):
             hs.insert(rng.randrange(len(hs) + 1) if twin else len(hs), h)      # activated before or after the override
     if var in ("c", "p"):
         sc = P.plain_next_to_annotated(rng, sc)
+    if var == "c" and rng.random() < 0.4:
+        # the override itself is addressed through the tag: it applies to the tagged bindings of c and to no other
+        for h in hs:
+            if h["ovr"]["k"] != "none":
+                q = P.qualified(h["sel"])
+                if q is not None:
+                    h["sel"] = q
     if mode == "probe" and var == "c" and rng.random() < 0.5:
         # the pair alone: an override of c and, activated after it, an observer of the tagged bindings of c in the same function
         o = next(h for h in hs if h["ovr"]["k"] != "none")
